@@ -32,6 +32,9 @@ RULE = ("request targets built from leading '/', '//', '/\\\\', '\\\\\\\\', '%2f
         "queries, sent as GET/HEAD/POST through catch-all patterns to handlers decorated with removeslash/addslash/authenticated and to a "
         "StaticFileHandler with default_filename; non-trivial = the response is a redirect or a refusal caused by the redirect guard; distinct by canonical JSON")
 EXHAUSTIVE = {"quick": False, "thorough": False}
+CLAUSE_CAVEATS = [
+    "Spec.sameSite is the predicate the code's guard computes (sameSitePath_eq is rfl): the theorems say a redirect is issued only after that guard; that the guard characterises 'a path on the same host' rests on its definition (no scheme, single leading slash not followed by slash or backslash)",
+]
 CLAUSES = {
     "removeslash/addslash Location is a path on the same host": "slash_redirect_same_site + handleDeco_slash_same_site (whole request through any catch-all pattern)",
     "static-directory redirect Location is a path on the same host": "static_redirect_same_site + static_handle_redirect_same_site (every config, path, filesystem)",
